@@ -1,10 +1,12 @@
 (* Driver entry for C18: the commit-bookkeeping model (Model/Commit.v) behind the wire
    format of Model/CommitDriver.v (cases 0 = timed micro-step trace, 1 = script of a storage
    call) plus case 5 = script of a call through Datastore / Bucket (Model/CommitApi.v,
-   Model/CommitApiDriver.v).  Compiled from build/C18 so that model.ml lands there. *)
+   Model/CommitApiDriver.v) plus cases 6 / 7 = run / script with engine faults
+   (Model/CommitFault.v, Model/CommitFaultDriver.v).  Compiled from build/C18 so that model.ml
+   lands there. *)
 From AwVerif Require Import Base.Prelude Base.Sexp Model.Commit Model.CommitDriver Model.CommitApi
-  Model.CommitApiDriver.
+  Model.CommitApiDriver Model.CommitFault Model.CommitFaultDriver.
 Require Extraction.
 Require Import ExtrOcamlBasic.
 
-Extraction "model.ml" CommitApiDriver.driver_entry.
+Extraction "model.ml" CommitFaultDriver.driver_entry.
